@@ -69,6 +69,20 @@ def generate(rng, tier):
             fmt = rng.choice([None, None, "%Y%m%dT%H%M%z", "%Y-%m-%d %H", "%Y-%j"])   # the recurrence path formats with strftime only
             cases.append(Case(["cli_rec %s %d %s%s" % (md, mx, enc(rec), " " + enc(fmt) if fmt else "")],
                               ["recurrence", "mode:" + md, "max:%d" % mx], fam="R"))
+        elif r < 0.86:
+            # --calendar against ISODATETIMECALENDAR: the option wins; alone, each selects what it says
+            flag = {"G": "gregorian", "360": "360day", "365": "365day", "366": "366day"}
+            m_env, m_opt = rng.choice(MODES), rng.choice(MODES)
+            y = rng.choice([2000, 2001, 2004, 2100])
+            text = rng.choice(["%04d-02-28T00Z" % y, "%04d0228T12Z" % y, "%04d-12-30T00Z" % y, "%04d-059T00Z" % y])
+            off = rng.choice(["P1D", "P2D", "P3D", "P1M", "-P60D", "P367D"])
+            which = rng.choice(["both", "env", "opt"])
+            env = ["ISODATETIMECALENDAR=" + flag[m_env]] if which in ("both", "env") else []
+            opt = ["--calendar=" + flag[m_opt]] if which in ("both", "opt") else []
+            eff = m_opt if which in ("both", "opt") else m_env
+            lines = ["cli " + " ".join(enc(e) for e in env) + " -- " + " ".join(enc(a) for a in opt + [text, "--offset=" + off]),
+                     "cli_shift %s 0 %s 1 %s" % (eff, enc(text), enc(off))]
+            cases.append(Case(lines, ["calendar-select", "which:" + which, "env:" + m_env, "opt:" + m_opt], fam="E", eff=eff, which=which))
         else:
             good = rand_text(rng, md)
             if rng.random() < 0.4:
@@ -86,6 +100,8 @@ def generate(rng, tier):
 def model_lines(c):
     fam = c.meta["fam"]
     t = c.lines[0].split()
+    if fam == "E":
+        return []
     if fam == "S":
         return [c.lines[0]]
     if fam == "D":
@@ -97,7 +113,7 @@ def model_lines(c):
 
 def corr(c):
     """model vs implementation on the command line's own output"""
-    if not c.model:
+    if not c.model or c.meta["fam"] == "E":
         return []
     m = c.model[0]
     cli = c.impl[0].split(" ; ", 1)[0].strip()
@@ -117,8 +133,14 @@ def judge(c):
     out = c.impl[0]
     fam = c.meta["fam"]
     res = corr(c)
-    if out.startswith(("EXC", "HANG")) or " ; " not in out and fam != "M":
+    if out.startswith(("EXC", "HANG")) or " ; " not in out and fam not in ("M", "E"):
         return res + [("violation", "%s -> %s (a traceback or hang would reach the user)" % (c.lines[0], out))]
+    if fam == "E":
+        want = c.impl[1].split(" ; ", 1)[0].strip()
+        if out != want:
+            res.append(("violation", "%s prints %s; with calendar %s selected (%s) the command line prints %s" % (
+                c.lines[0], out, c.meta["eff"], c.meta["which"], want)))
+        return res
     if fam == "M":
         if out.startswith("EXC") or out == "HANG" or out in ("EXITCODE 2 %00", "EXITCODE 1 %00") or out.startswith("EXITCODE 0"):
             res.append(("violation", "%s -> %s: a malformed argument must give a message and a non-zero exit, not a traceback" % (c.lines[0], out)))
